@@ -16,7 +16,7 @@ SPEC = {
         ('K-upsert(filing)', 'upsert', '^upsert:'),
         ('K-prune(frame)', 'prune', 'prune:(delayed-frame|scores-and-stop|loop-.*untouched)')],
     'bounded': [
-        ('well-formed-after-histories', suites.case_C09, 500, 10000, RULE + '; ' + 'non-trivial = history of >= 2 operations (match, extend, widen, continue_with_distance after an early stop)', 'histories <= 4 operations')],
+        ('well-formed-after-histories', suites.case_C09, 1500, 25000, RULE + '; ' + 'non-trivial = history of >= 2 operations (match, extend, widen, continue_with_distance after an early stop)', 'histories <= 4 operations')],
 }
 
 
